@@ -206,7 +206,10 @@ def replay_case(case):
     if k == "static":
         return static_checks(engine.Acc())
     if k == "unknown":
-        return judge_unknown(case["kid"], case["pos"])[1]
+        out = judge_unknown(case["kid"], case["pos"])[1]
+        if case.get("variant"):
+            out = [(a.replace("unknown_id|", "unknown_id_sharing_group_item_with_known_key|"), b) for a, b in out]
+        return out
     return []
 
 
@@ -265,6 +268,17 @@ def static_checks(acc):
             pass
         except Exception as e:  # noqa: BLE001
             out.append((f"unknown_name_wrong_exception|{type(e).__name__}", bad))
+    return out
+
+
+def sizecode_variants(quick):
+    """Undocumented IDs that share group and item with a documented key but carry another size code."""
+    out = []
+    for n, (name, (kid, t)) in enumerate(DB):
+        for size in (1, 2, 3, 4, 5):
+            v = (kid & 0x0FFFFFFF) | (size << 28)
+            if v not in C.CFGDB_BY_ID:
+                out.append(v)
     return out
 
 
@@ -417,6 +431,12 @@ def eval_block(block, acc):
         for k2, detail in static_checks(acc):
             acc.violation(k2, {"kind": "static"}, detail)
         acc.evaluations += len(DB)
+        for kid in sizecode_variants(quick):
+            st, out = judge_unknown(kid, 1)
+            acc.evaluations += 1
+            acc.outcomes[("unknown-sizecode-variant", kid >> 28, 1)] += 1
+            for k2, detail in out:
+                acc.violation(k2.replace("unknown_id|", "unknown_id_sharing_group_item_with_known_key|"), {"kind": "unknown", "kid": kid, "pos": 1, "variant": True}, detail)
         for kid in unknown_ids():
             for pos in (0, 1, 2):
                 st, out = judge_unknown(kid, pos)
@@ -439,7 +459,7 @@ def run_tier(tier, t0):
             f"all {len(DB)} database keys x by name / by ID x values (all 256 for 1-byte types; one key per 2-byte type over "
             + ("a 1/257 stride" if q else "all 65,536 values")
             + "; boundary sets otherwise; out-of-range/wrong-type values must be refused) through config_set, each key through config_del/config_poll; lists of every length 0..64 of distinct keys and 65/66/100; "
-            "all ordered pairs" + (" and a third of the triples" if q else " and triples") + " over one key per type; layers 0..255 x transaction; position boundary values; unknown IDs for size codes 1..5 in each position of a 3-list; "
+            "all ordered pairs" + (" and a third of the triples" if q else " and triples") + " over one key per type; layers 0..255 x transaction; position boundary values; unknown IDs for size codes 1..5 in each position of a 3-list, and every documented key's group/item under each other size code; "
             "produced payloads compared with the reference codec and re-parsed as CFG-VALSET and as CFG-VALGET response. states = keys covered; distinct_nontrivial = (type, addressing, verdict) classes"
         ),
         assumptions=["storage widths by size code {1:1,2:1,3:2,4:4,5:8}; undocumented IDs with bit 31 clear (O8); aliases resolve to the first database name (O7)", "out-of-range values may be refused by any exception (the helpers are static, outside the constructor's translation)"],
